@@ -67,7 +67,9 @@ def universe() -> dict[str, Fake]:
 
 ADDS = [("P1", "p1", False), ("P1", "P1", True), ("P2", "p2", False), ("P2", "P2", True), ("P3", "p3", False),
         ("P3", "P3", True), ("P2", "P1", False), ("P1", "myext", False),
-        ("P2", "Größe", False), ("P1", "GRÖSSE", False)]  # the last one collides with the installed entry-point plug-in 'MyExt'
+        ("P2", "Größe", False), ("P1", "GRÖSSE", False),
+        # a plug-in registered under a name that is also one of its method names (the name plays no part in a bare request)
+        ("P1", "Beta", False)]
 REAL_METHOD = {"optimizer": "slsqp", "sampler": "norm", "realization_filter": "sort-objective", "function_estimator": "mean",
                "plan_handler": "tracker", "plan_step": "evaluator"}
 
@@ -84,7 +86,7 @@ def lookups(ptype: str) -> list[str]:
             "ext-alpha", "myext/ext-alpha", "MyExt/ext-alpha", "MYEXT/EXT-ALPHA", "myext/alpha",
             # a request for a plug-in that does not exist (or does not support the method) is not a bare request for something else:
             # the part before the slash happens to be a method name of a discoverable plug-in
-            "alpha/nope", "beta/gamma", f"{real}/anything", "gamma/", "default/alpha",
+            "alpha/nope", "beta/gamma", "beta/beta", "beta/alpha", f"{real}/anything", "gamma/", "default/alpha",
             # non-ASCII names: case-insensitive means str.lower() on both sides (two different keys: 'größe' and 'grösse')
             "größe/beta", "GRößE/beta", "Größe/gamma", "grösse/alpha", "GRÖSSE/beta", "grosse/beta", f"external/scipy/{real}" if ptype == "optimizer" else "p3/Sub/Alpha"]
 
